@@ -326,7 +326,7 @@ func init() {
 		},
 	}
 	var c16quick, c16all []int
-	for ci := 0; ci < 6; ci++ {
+	for ci := 0; ci < 8; ci++ {
 		for k := 0; k < 4; k++ {
 			c16all = append(c16all, ci*8+k) // token lifecycle, origin absent / null
 		}
@@ -334,20 +334,20 @@ func init() {
 			c16all = append(c16all, 100+ci*8+k) // origin policy
 		}
 	}
-	c16quick = []int{0*8 + 0, 3*8 + 1, 4*8 + 0, 5*8 + 2, 100 + 1*8 + 7, 100 + 2*8 + 4, 100 + 2*8 + 7}
-	csrfPkgs := []string{"github.com/gofiber/fiber/v3", "github.com/gofiber/fiber/v3/internal/memory"}
+	c16quick = []int{0*8 + 0, 3*8 + 1, 4*8 + 0, 5*8 + 2, 6*8 + 0, 7*8 + 1, 100 + 1*8 + 7, 100 + 2*8 + 4, 100 + 2*8 + 7}
+	csrfPkgs := []string{"github.com/gofiber/fiber/v3", "github.com/gofiber/fiber/v3/internal/memory", "github.com/gofiber/fiber/v3/middleware/session", "github.com/gofiber/fiber/v3/internal/storage/memory"}
 	props["C16"] = PropSpec{
 		ID: "C16",
 		Runs: []HarnessRun{
 			{Rel: "middleware/csrf", Dir: "csrf", Entry: "VH_C16_unsafe", Cases: tierCases(c16quick, c16all), Reach: []string{"reached", "rejected"}, MaxPaths: 300000, ExtraPkgs: csrfPkgs},
 		},
 		Bounds: map[string]string{
-			"quick":    "6 configurations (no/exact/wildcard trusted origins, SingleUseToken, external storage with lookup faults); history: safe request issues a token, time gap 0..12 s against IdleTimeout 10 s, optional earlier use, then an unsafe request whose cookie/header token is none / the issued one / forged, with Origin absent / null / scheme://host (host symbolic, 4..6 bytes) or a Referer scheme://host/path (host 4..6, path 0..5 symbolic bytes), on http or https",
-			"thorough": "all 6 configurations x 4 origin kinds x {http, https}",
+			"quick":    "8 configurations (no/exact/wildcard trusted origins, SingleUseToken, external storage with lookup faults, session-backed tokens); history: safe request issues a token, time gap 0..12 s against IdleTimeout 10 s, optional earlier use, then an unsafe request whose cookie/header token is none / the issued one / forged, with Origin absent / null / scheme://host[:8443] (host symbolic, 4..6 bytes) or a Referer scheme://host[:8443]/path (host 4..6, path 0..5 symbolic bytes), on http or https",
+			"thorough": "all 8 configurations x 4 origin kinds x {http, https}",
 		},
 		Assumptions: []string{
 			"header extractor (default); tokens are generated by a counter-based KeyGenerator (utils.UUIDv4 needs crypto/rand)",
-			"session-backed token storage is outside (gob/reflection)",
+			"session-backed token storage runs on the session Store API with the table codec in place of encoding/gob; the client keeps the session cookie",
 			"host and path bytes over [a-z0-9.-]",
 			"soundness direction only: the handler is reached only if the oracle admits (rejections of admissible requests are not flagged)",
 		},
@@ -390,7 +390,7 @@ func init() {
 	props["C15"] = PropSpec{
 		ID: "C15",
 		Runs: []HarnessRun{
-			{Rel: "middleware/session", Dir: "session", Entry: "VH_C15_store", Cases: tierCases([]int{0, 2, 4, 8}, []int{0, 1, 2, 3, 4, 5, 8, 9, 10, 12}), Reach: []string{"resumed", "fresh", "expired", "old-id-checked"}, MaxPaths: 600000, ExtraPkgs: sessPkgs},
+			{Rel: "middleware/session", Dir: "session", Entry: "VH_C15_store", Cases: tierCases([]int{0, 2, 4, 8}, []int{0, 1, 2, 3, 4, 5, 8, 9, 10, 12}), Reach: []string{"resumed", "fresh", "expired", "old-id-checked", "second-get"}, MaxPaths: 600000, ExtraPkgs: sessPkgs},
 			{Rel: "middleware/session", Dir: "session", Entry: "VH_C15_mw", Cases: tierCases([]int{0, 2, 4, 9}, []int{0, 1, 2, 3, 4, 5, 8, 9, 10, 12}), Reach: []string{"resumed", "fresh", "expired", "abs-expired", "old-id-checked", "told"}, MaxPaths: 600000, ExtraPkgs: sessPkgs},
 		},
 		Bounds: map[string]string{
